@@ -122,6 +122,22 @@ CLAIMED = {
              'before exactly.suite beside the case before the default; cases use the setup of the suite that lists '
              'them, sub-suites start from the default.',
         design='DESIGN.md section 5, C17'),
+    'C12': dict(
+        technique='constant folding of relativity tables and destination configurations; alias/mutation analysis of the '
+                  'shared relativity sets; statelessness (attribute-write) analysis of path values; decision table of '
+                  'the relativity restriction; plumbing of accepted variants into symbol-reference restrictions; '
+                  'completeness of reported references; guard analysis of root/suffix joins',
+        text='Every relativity has exactly one resolver whose own relativity and directory getter agree with its key '
+             '(tables and per-partition enums); -rel-cd reads the current directory when resolved and path values '
+             'store no state after construction; the destination configurations of file, dir and copy fold to subsets '
+             'of {act, tmp, cd} without absolute and are the ones given to the destination parsers; the shared '
+             'relativity sets are never mutated in place; an option outside the accepted set is a syntax error on '
+             'every path; every symbol reference a path argument can produce carries the restriction built from that '
+             'argument\'s accepted variants, and the restriction tests the resolved relativity as documented; every '
+             'symbol-dependent value an instruction is built from is reported for validation. The unguarded '
+             'root/suffix joins (absolute suffix escapes the root) are a known finding (D6).',
+        design='DESIGN.md section 5, C12',
+        note='Known finding D6 (6 join sites) is listed in known_findings.json.'),
 }
 
 NOT_APPLICABLE = {
